@@ -1224,7 +1224,7 @@ fn main() {
          (vk/pk bytes in 3 formats, transcript_repr, proof made with the key vs the pool-1 reference); roundtrip = subject x \
          {vk,pk} x write format x read format (all 9 pairs: 5 compatible must reproduce the object in every format, 4 incompatible \
          must be refused); prove-verify = subject x 5 compatible pairs x {4 pk/vk combinations, reloaded SRS, reloaded verifier \
-         params, foreign proof under original and reloaded vk}; srs-roundtrip = ParamsKZG and ParamsVerifierKZG x k x 9 format pairs; \
+         params, foreign proof under original and reloaded vk}; srs-roundtrip = ParamsKZG and ParamsVerifierKZG x k x 9 format pairs x rayon pools {1,2,3,8}; \
          downsize = (k, k') for every k' in 1..=k x 5 pools, against unsafe_setup(k') from the same secret; keygen-on-downsized = \
          subject x SRS of size k+1, k+2. A case is non-trivial unless it is the pool-1 first repetition or a k'=k downsize.",
     );
@@ -1304,19 +1304,23 @@ fn main() {
 
     // ---- SRS round trips
     let srs_ks: Vec<u32> = if thorough { vec![1, 2, 3, 4, 5, 6, 8, 10, 13] } else { vec![1, 2, 3, 5, 8] };
-    let mut cases: Vec<(String, (String, bool, u32, Fmt, Fmt))> = vec![];
+    // every round trip under rayon pools {1, 2, 3, 8}: the readers decode points in parallel chunks,
+    // and the reloaded object must not depend on how the work was split
+    let mut cases: Vec<(String, (String, bool, u32, Fmt, Fmt, usize))> = vec![];
     for &k in &srs_ks {
         for w in Fmt::ALL {
             for r in Fmt::ALL {
-                let key = format!("params/k={k}/{}->{}", w.name(), r.name());
-                cases.push((key.clone(), (key, false, k, w, r)));
-                let key = format!("vparams/k={k}/{}->{}", w.name(), r.name());
-                cases.push((key.clone(), (key, true, k, w, r)));
+                for t in [1usize, 2, 3, 8] {
+                    let key = format!("params/k={k}/{}->{}/pool={t}", w.name(), r.name());
+                    cases.push((key.clone(), (key, false, k, w, r, t)));
+                    let key = format!("vparams/k={k}/{}->{}/pool={t}", w.name(), r.name());
+                    cases.push((key.clone(), (key, true, k, w, r, t)));
+                }
             }
         }
     }
-    cx.run_cases("srs-roundtrip", &cases, |(key, v, k, w, r)| {
-        sticky("srs-roundtrip", key, || vcore::in_pool(1, || if *v { vparams_roundtrip(*k, *w, *r, seed) } else { srs_roundtrip(*k, *w, *r, seed) }))
+    cx.run_cases("srs-roundtrip", &cases, |(key, v, k, w, r, t)| {
+        sticky("srs-roundtrip", key, || vcore::in_pool(*t, || if *v { vparams_roundtrip(*k, *w, *r, seed) } else { srs_roundtrip(*k, *w, *r, seed) }))
     });
 
     // ---- (d) downsizing
